@@ -53,3 +53,50 @@ Example C03_nonvacuous :
   let full  := {| f_id := 1; f_ref := false; f_span := (25, 39); f_full := (0, 39) |} in
   map f_id (filter_citations [short; full]) = [0%nat; 1%nat].
 Proof. vm_compute. reflexivity. Qed.
+
+(* ---- the clause about EXTRACTED citations: document order and no overlap, through the whole pipeline.
+   Found false of the unrepaired code by the proof attempt (a reference overlapping an earlier kept citation that
+   is not the last one kept: D24); holds for the repaired filter ---- *)
+From EV Require Import Base.PyVal Model.Tokenize Model.Pipeline Model.SearchEngine Model.Extract Model.E2E Model.RefEngine Model.E2EClosed.
+From EV Require Import Proofs.PipeSpec Proofs.PipeMeta Proofs.FilterDisjoint Proofs.SpansDisjoint.
+
+(* a kept reference's full span overlaps no other kept citation's full span *)
+Theorem C03_refs_disjoint : forall l,
+  (forall x, In x l -> full_nonempty x) ->
+  forall r y, In r (filter_citations l) -> In y (filter_citations l) -> f_ref r = true -> r <> y ->
+    overlapping (f_full r) (f_full y) = false.
+Proof. exact filter_refs_disjoint. Qed.
+Print Assumptions C03_refs_disjoint.
+
+(* any oracle meeting the (window-guarded) contracts, any stream with the C12 properties *)
+Theorem C03_extracted_spans_disjoint :
+  forall (Wok : str -> Prop)
+         search refsearch MAXC BACK D highest this_year edition_of source_of valid_name is_space
+         text words cits ra l,
+  text <> s_eyecite ->
+  stream_ok text words -> cits_ok words cits -> toks_ok source_of words ->
+  (forall a b, Wok (slice text a b)) ->
+  search_ok_w Wok search -> refs_ok refsearch -> refs_nonempty refsearch ->
+  (forall w, search PPostShort w <> None) ->
+  cits_sorted cits -> cits_nonempty cits ->
+  get_citations search refsearch MAXC BACK D highest this_year edition_of source_of valid_name is_space
+                text words cits ra = Ok l ->
+  StronglySorted (fun a b => (snd (span_of a) <= fst (span_of b))%Z) l.
+Proof. exact get_citations_spans_disjoint. Qed.
+Print Assumptions C03_extracted_spans_disjoint.
+
+(* the closed model: text and year in, citations out -- premises on the text only *)
+Theorem C03_closed_spans_disjoint : forall this_year s ra l,
+  s <> s_eyecite -> ws_clean is_space_gen s ->
+  get_citations_closed this_year s ra = Ok l ->
+  StronglySorted (fun a b => (snd (span_of a) <= fst (span_of b))%Z) l.
+Proof. exact closed_spans_disjoint. Qed.
+Print Assumptions C03_closed_spans_disjoint.
+
+(* non-reference citations: for EVERY text but the easter egg *)
+Theorem C03_closed_nonref_spans_disjoint : forall this_year s ra l,
+  s <> s_eyecite -> get_citations_closed this_year s ra = Ok l ->
+  StronglySorted (fun a b => (snd (span_of a) <= fst (span_of b))%Z) (filter (fun c => negb (is_ref c)) l).
+Proof. exact closed_nonref_spans_disjoint. Qed.
+Print Assumptions C03_closed_nonref_spans_disjoint.
+
